@@ -128,6 +128,10 @@ pub enum Ev {
 pub struct InterpFacts {
     pub lo: f64,
     pub hi: f64,
+    /// BDF: order the step was taken with (dense coefficient block marker); 0 for other methods
+    pub ord: i64,
+    /// raw step size of the interpolant
+    pub h: f64,
     pub l_err: f64, // max_i |interp(xold)_i - yold_i| / scale_i
     pub r_err: f64,
     pub finite: bool,
@@ -290,7 +294,9 @@ impl<'a, 'b> SolOut for RecSolOut<'a, 'b> {
                 r_err = r_err.max((yr[i] - y[i]).abs() / allow);
                 finite &= yl[i].is_finite() && yr[i].is_finite();
             }
-            InterpFacts { lo, hi, l_err, r_err, finite }
+            let (_, hstep) = ip.step_params();
+            let ord = if bdf { let c = ip.to_segment().cont; if c.len() >= 7 { c[6].round() as i64 } else { 0 } } else { 0 };
+            InterpFacts { lo, hi, ord, h: hstep, l_err, r_err, finite }
         });
         let act = self.script.iter().find(|s| s.k == k).map(|s| s.action.clone());
         let mut ret = ControlFlag::Continue;
@@ -303,6 +309,12 @@ impl<'a, 'b> SolOut for RecSolOut<'a, 'b> {
             Some("modify_same") => {
                 ret = ControlFlag::ModifiedSolution;
                 rets = "Modified";
+            }
+            Some("xout") => {
+                // schedule "dense output" for a point two steps ahead in the direction of integration
+                let ahead = *x + 2.0 * (*x - xold);
+                ret = ControlFlag::XOut(if ahead == *x { *x } else { ahead });
+                rets = "XOut";
             }
             Some("modify_x2") => {
                 for v in y.iter_mut() {
@@ -552,6 +564,17 @@ pub fn trace(case: &Case, instr: &Instr, out: &Outcome) -> Vec<Value> {
     // events
     let mut first_trial: Option<f64> = None;
     let mut n_plain_ode = 0usize;
+    // step size of the previous callback's interpolant (for the "equal steps" flag of BDF)
+    let mut prev_h_of: Vec<Option<f64>> = vec![None; log.len()];
+    {
+        let mut ph: Option<f64> = None;
+        for (i, e) in log.iter().enumerate() {
+            if let Ev::Cb { interp, .. } = e {
+                prev_h_of[i] = ph;
+                ph = interp.as_ref().map(|f| f.h);
+            }
+        }
+    }
     // contiguity of consecutive callbacks, computed over the complete log (before any elision)
     let mut contig_of: Vec<bool> = vec![true; log.len()];
     {
@@ -615,13 +638,15 @@ pub fn trace(case: &Case, instr: &Instr, out: &Outcome) -> Vec<Value> {
             Ev::Evt { t } => lines.push(json!({"e": "ev", "r": rk.rank(*t)})),
             Ev::Cb { k, xold, x, y, interp, ret } => {
                 let contig = contig_of[idx];
+                let prev_h = prev_h_of[idx];
                 let ip = interp.as_ref().map(|f| json!({
                     "lo": tj(f.lo), "hi": tj(f.hi),
                     "b_ok": (f.lo - xold.min(*x)).abs() <= ulps(scale.max(f.lo.abs()), 8.0) && (f.hi - xold.max(*x)).abs() <= ulps(scale.max(f.hi.abs()), 8.0),
                     "l_ok": f.l_err <= 1.0 || !f.finite,
                     "r_ok": f.r_err <= 1.0 || !f.finite,
+                    "ord": f.ord, "heq": prev_h.map(|p: f64| p.abs().to_bits() == f.h.abs().to_bits()).unwrap_or(false),
                     "lre": [if f.l_err > 0.0 { f.l_err.log10().floor() as i64 } else { -999 }, if f.r_err > 0.0 { f.r_err.log10().floor() as i64 } else { -999 }],
-                    "fin": f.finite})).unwrap_or(json!({"b_ok": true, "l_ok": true, "r_ok": true, "fin": true}));
+                    "fin": f.finite})).unwrap_or(json!({"b_ok": true, "l_ok": true, "r_ok": true, "fin": true, "ord": 0, "heq": false}));
                 lines.push(json!({"e": "cb", "k": k, "xold": tj(*xold), "x": tj(*x), "d": dg(idx, *x, y), "y": toks(y), "contig": contig,
                                   "fin": y.iter().all(|v| v.is_finite()), "ip": ip, "hasip": interp.is_some(), "ret": ret}));
             }
